@@ -799,6 +799,9 @@ class DirectProxyAccessor(WritableAccessor[T_co], PhysicalAccessor[T_co]):
                 parent_index = index
         except ValueError:
             parent_index = len(elmlist._parent._element)
+        if value._element.getparent() is not None:
+            # moving an existing element: its old fragment must forget it
+            elmlist._model._loader.idcache_remove(value._element)
         elmlist._parent._element.insert(parent_index, value._element)
         elmlist._model._loader.idcache_index(value._element)
 
@@ -1879,6 +1882,9 @@ class RoleTagAccessor(WritableAccessor, PhysicalAccessor):
                 parent_index = index
         except ValueError:
             parent_index = len(elmlist._parent._element)
+        if value._element.getparent() is not None:
+            # moving an existing element: its old fragment must forget it
+            elmlist._model._loader.idcache_remove(value._element)
         elmlist._parent._element.insert(parent_index, value._element)
         elmlist._model._loader.idcache_index(value._element)
 
